@@ -114,7 +114,7 @@ def parseBracket : Nat → Bytes → List (UInt8 × UInt8) → Bool → ParseRes
     else if b = 91 then .unsupported                           -- [ inside class ([:alpha:] etc.)
     else if b = 92 then                                        -- backslash
       match rest with
-      | [] => .unsupported   -- a trailing backslash escapes the `)` Go appends after the rule: what follows decides
+      | [] => .bad           -- trailing backslash: the rule alone does not compile (repair D35: Go compiles the rule on its own first)
       | e :: rest' =>
         match escClass e with
         | some rs => parseBracket fuel rest' (rs.reverse ++ acc) false
@@ -200,7 +200,7 @@ def parseSeq : Nat → Bytes → Re → Bool → ParseRes (Re × Bytes)
     else if b = 46 then cont (applyPostfix (.cls clsDot) (some clsDot) rest)   -- .
     else if b = 92 then                                            -- backslash
       match rest with
-      | [] => .unsupported   -- a trailing backslash escapes the `)` Go appends after the rule: what follows decides
+      | [] => .bad           -- trailing backslash: the rule alone does not compile (repair D35: Go compiles the rule on its own first)
       | e :: rest' =>
         match escClass e with
         | some rs => let c : Cls := { neg := false, ranges := rs }; cont (applyPostfix (.cls c) (some c) rest')
@@ -211,12 +211,13 @@ def parseSeq : Nat → Bytes → Re → Bool → ParseRes (Re × Bytes)
     else let c : Cls := { neg := false, ranges := [(b, b)] }; cont (applyPostfix (.cls c) (some c) rest)
 end
 
-/-- Parse a whole rule. Go compiles the TEXT `(?P<name>` ++ rule ++ `)` ++ quoted suffix, so a stray `)` closes the named
-group early and whether the whole compiles depends on what follows (`a)(b` compiles, `a)b` does not): outside the dialect. -/
+/-- Parse a whole rule. Go compiles the rule on its own before it compiles the TEXT `(?P<name>` ++ rule ++ `)` ++ quoted
+suffix (repair D35), so a stray `)` — the only way `parseAlt` stops early — is a syntax error (before D35 `a)|(b` was
+accepted, its named group did not take part in a match and `Segment.Match` faulted on `/b`). -/
 def parseRule (rule : Bytes) : ParseRes Re :=
   match parseAlt (rule.length + 2) rule with
   | .ok (r, []) => .ok r
-  | .ok (_, _) => .unsupported
+  | .ok (_, _) => .bad
   | .bad => .bad
   | .unsupported => .unsupported
 
